@@ -248,18 +248,17 @@ def _positive(t):
 
 
 # ------------------------------------------------------------------------------------------
-def r_fstream(F, S, fn, stream_field="file"):
-    """After ifstream::read the stream may be failed; every exit must be reached with the flags cleared or
-    with the success branch of a `!file` test taken."""
+def _fstream_run(F, fn, stream_field, entry_state, depth=2):
+    """One pass of the failed-stream state machine over fn entered in `entry_state`.
+    Returns (states reaching a normal exit, [(block, kind)] exits reached with the stream possibly failed, reads seen)."""
     g = CFG(fn)
     st = ("mem", ("this",), stream_field)
     # forward may-analysis: state in {"ok", "maybe"} per block entry
-    IN = {g.entry: "ok"}
+    IN = {g.entry: entry_state}
     work = [g.entry]
-    out_state = {}
     bad_exits = []
+    exit_states = set()
     reads = 0
-    edge_state = {}
     while work:
         b = work.pop(0)
         s = IN[b]
@@ -275,6 +274,18 @@ def r_fstream(F, S, fn, stream_field="file"):
                     s = "ok"
                 elif nd.get("fname") == "clear" and nd.get("args") and all(fn.n(a)["k"] == "CXXDefaultArgExpr" for a in nd["args"]):
                     s = "ok"
+            elif nd["k"] == "CXXMemberCallExpr" and "obj" in nd and fn.term(nd["obj"]) == ("this",) and depth > 0:
+                # a helper on the same object that reads the stream: the state it leaves on its normal exits
+                for cal in F.callees(nd):
+                    if not cal.cfg or cal.key == fn.key:
+                        continue
+                    if not any(x["k"] == "CXXMemberCallExpr" and x.get("fname") in ("read", "clear") and "obj" in x and cal.term(x["obj"]) == st for x in cal.nodes):
+                        continue
+                    es, be, rn, _g = _fstream_run(F, cal, stream_field, s, depth - 1)
+                    reads += rn
+                    if be:
+                        bad_exits.append((b, "throw (inside %s)" % cal.name))
+                    s = "maybe" if ("maybe" in es or not es) else "ok"
         if b in g.throws:
             if s != "ok":
                 bad_exits.append((b, "throw"))
@@ -288,6 +299,7 @@ def r_fstream(F, S, fn, stream_field="file"):
                     if f == ("true", st) or f == ("false", ("opcall", "!", (st,))):
                         s2 = "ok"
             if t == g.exit:
+                exit_states.add(s2)
                 if s2 != "ok":
                     bad_exits.append((b, "return"))
                 continue
@@ -296,6 +308,13 @@ def r_fstream(F, S, fn, stream_field="file"):
             if old != new:
                 IN[t] = new
                 work.append(t)
+    return exit_states, bad_exits, reads, g
+
+
+def r_fstream(F, S, fn, stream_field="file"):
+    """After ifstream::read the stream may be failed; every exit must be reached with the flags cleared or
+    with the success branch of a `!file` test taken. The read and the recovery may sit in a helper on the same object."""
+    _es, bad_exits, reads, g = _fstream_run(F, fn, stream_field, "ok")
     inst = "%s#failbit" % fn.qn
     req = "a failed or short read does not leave the shared stream in a failed state"
     if reads == 0:
